@@ -72,7 +72,8 @@ func runStateful19(c *Ctx) {
 		cfgs = append(cfgs, cfg{6, chainPlug{"prefix", []string{pools[r.Intn(4)], sz}}})
 		cfgs = append(cfgs, cfg{6, chainPlug{"prefix", []string{"10.0.0.0/8", sz}}})
 	}
-	for _, pc := range [][]string{{"2001:db8::/120", "129"}, {"2001:db8::/128", "129"}, {"2001:db8::/100", "130"}, {"2001:db8::/120", "128"}, {"2001:db8::/120", "183"}, {"2001:db8::/127", "190"}, {"::ffff:10.0.0.0/120", "129"}} {
+	for _, pc := range [][]string{{"2001:db8::/120", "129"}, {"2001:db8::/128", "129"}, {"2001:db8::/100", "130"}, {"2001:db8::/120", "128"}, {"2001:db8::/120", "183"}, {"2001:db8::/127", "190"}, {"::ffff:10.0.0.0/120", "129"},
+		{"2001:db8::/32", "96"}, {"2001:db8::/64", "128"}, {"2001::/16", "80"}, {"::/0", "64"}, {"2001:db8::/31", "96"}} {
 		cfgs = append(cfgs, cfg{6, chainPlug{"prefix", pc}})
 	}
 	cfgs = append(cfgs, cfg{6, chainPlug{"prefix", nil}}, cfg{6, chainPlug{"prefix", []string{"2001:db8::/48"}}}, cfg{6, chainPlug{"prefix", []string{"2001:db8::/48", "64", "extra"}}})
@@ -105,7 +106,7 @@ func runStateful19(c *Ctx) {
 			if _, pn, err := net.ParseCIDR(cf.plug.Args[0]); err == nil {
 				var sz int
 				if _, e2 := fmt.Sscanf(cf.plug.Args[1], "%d", &sz); e2 == nil {
-					if ones, _ := pn.Mask.Size(); sz-ones > 24 && sz <= 128 {
+					if ones, _ := pn.Mask.Size(); sz-ones > 24 && sz-ones < 64 && sz <= 128 {
 						c.Count("stateful-setup:skipped-huge-pool")
 						continue
 					}
